@@ -142,12 +142,19 @@ def install_sampler_life(rec, step_extra=None):
 
     def window(opname):
         def mk(orig):
-            def wrapper(self, n, *a, **k):
+            def wrapper(self, *a, **k):
+                # the first parameter may be passed by keyword (sample(Ns=..), warmup(Nb=..)): never change how a call binds
+                if a:
+                    n = a[0]
+                elif k:
+                    n = k.get("Ns", k.get("Nb", next(iter(k.values()))))
+                else:
+                    return orig(self, *a, **k)          # malformed call: let the library raise its own error
                 if tampered(self):
                     rec.close(self)
                 st = rec.side(self)
                 if st.get("win", 0):
-                    return orig(self, n, *a, **k)
+                    return orig(self, *a, **k)
                 st["win"] = 1
                 started = False
                 try:
@@ -157,11 +164,11 @@ def install_sampler_life(rec, step_extra=None):
                     ev = {"e": "begin", "op": opname, "n": int(n), "interval": 0}
                     if opname == "warmup":
                         # documented: "Tuning is performed every tune_freq*Nb samples" (at least every sample)
-                        tf = a[0] if a else k.get("tune_freq", 0.1)
+                        tf = a[1] if len(a) > 1 else k.get("tune_freq", 0.1)
                         ev["interval"] = max(int(tf * n), 1)
                     rec.emit(self, ev)
                     started = True
-                    return orig(self, n, *a, **k)
+                    return orig(self, *a, **k)
                 except BaseException:
                     rec.close(self)       # an exception inside a sampling loop ends the trace (nothing more is checked)
                     raise
@@ -234,8 +241,18 @@ def install_sampler_life(rec, step_extra=None):
             if tampered(self):
                 rec.close(self)
             else:
-                ids = [vid(c) for c in (self._samples or [])]
-                if len(ids) <= 600:
+                # the chain AS RETURNED (columns of the Samples object), not the internal list
+                try:
+                    A = np.asarray(out.samples, dtype=float)
+                    if A.ndim == 0:
+                        A = A.reshape(1, 1)
+                    elif A.ndim == 1:
+                        # one column per recorded state: a 1-D array is N states of a scalar chain, or no state at all
+                        A = A.reshape(1, -1)
+                    ids = [vid(A[:, j]) for j in range(A.shape[1])]
+                except Exception:
+                    ids = None            # an unexpected return type is not judged here (result classes are not asserted)
+                if ids is not None and len(ids) <= 600:
                     rec.emit(self, {"e": "get", "ids": ids})
             return out
         return wrapper
@@ -259,18 +276,31 @@ def install_sampler_life(rec, step_extra=None):
             rec.patch(cls, "reinitialize", mk_reinit)
 
     def mk_setstate(orig):
-        def wrapper(self, state):
+        def wrapper(self, *a, **k):
+            state = a[0] if a else k.get("state")
+            ok = False
             try:
-                return orig(self, state)
+                out = orig(self, *a, **k)
+                ok = True
+                return out
             finally:
-                rec.emit(self, {"e": "setstate"})
+                # spid: value id of the chain point in the state handed in; pid: the sampler's point after the call
+                # (0 = not available).  A state that was installed must be the state the sampler continues from.
+                spid = pid = 0
+                try:
+                    pt = state["state"].get("current_point") if ok else None
+                    if pt is not None and getattr(self, "current_point", None) is not None:
+                        spid, pid = vid(pt), vid(self.current_point)
+                except Exception:
+                    spid = pid = 0
+                rec.emit(self, {"e": "setstate", "spid": spid, "pid": pid})
         return wrapper
     rec.patch(Sampler, "set_state", mk_setstate)
 
     def mk_sethist(orig):
-        def wrapper(self, history):
+        def wrapper(self, *a, **k):
             try:
-                return orig(self, history)
+                return orig(self, *a, **k)
             finally:
                 h = getattr(self, "_samples", None)
                 if h:                       # a non-empty history installed from outside: not modelled, stop tracing
